@@ -39,6 +39,15 @@ def run(tier="quick", seed=1, replay=None):
     cov = dict(states=0, transitions=0, traces_validated_against_impl=0, samples=[], evaluations=0,
                distinct_nontrivial=0)
     with vf.scratch("vf-c16-") as wd:
+        if not replay:
+            # unbounded in the sizes: the guard of the placement loop as an inductive invariant (Apalache, 4 GPUs, all integers)
+            obligations = [("Init", "IndInv", 0), ("IndInit", "IndInv", 1), ("IndInit", "C16", 0)]
+            for init, inv, length in obligations:
+                r = vf.apalache("MemPlaceInd", wd, init, inv, length)
+                if not r["ok"]:
+                    raise vf.Inconclusive(f"Apalache did not discharge {init} => {inv} (length {length}) of MemPlaceInd.tla:\n" + r["out"][-1500:])
+            cov["inductive_invariant"] = {"module": "MemPlaceInd.tla", "tool": "apalache-mc 0.58", "gpus": 4, "sizes": "all naturals",
+                                          "obligations": [f"{a} => {b} (length {c})" for a, b, c in obligations]}
         if replay:
             cases = [json.loads(l) for l in open(replay) if l.strip()]
         else:
